@@ -9,7 +9,7 @@ use write_fonts::{
     FontWrite,
     tables::{
         gpos::builders::ValueRecordBuilder as ValueRecord,
-        gsub::{self as write_gsub, ReverseChainSingleSubstFormat1},
+        gsub::{self as write_gsub, ReverseChainSingleSubstFormat1, builders::LigatureSubBuilder},
         layout::{
             self as write_layout, LookupFlag,
             builders::{ClassDefBuilder, CoverageTableBuilder},
@@ -243,9 +243,9 @@ impl ContextualLookupBuilder<SubstitutionLookup> {
         let (lookup, id) = self.find_or_create_anon_lookup(
             |existing| match existing {
                 SubstitutionLookup::Ligature(builder) => builder.subtables.iter().all(|sub| {
-                    targets
-                        .iter()
-                        .all(|target| sub.can_add(target, replacement))
+                    targets.iter().all(|target| {
+                        sub.can_add(target, replacement) && !shares_prefix(sub, target)
+                    })
                 }),
                 _ => false,
             },
@@ -262,6 +262,24 @@ impl ContextualLookupBuilder<SubstitutionLookup> {
         }
         id
     }
+}
+
+/// `true` if some sequence already in `sub` is a proper prefix of `target`, or
+/// `target` is a proper prefix of one of them.
+///
+/// A contextual rule applies its anonymous ligature lookup where its own input
+/// sequence has matched. If the lookup also held a longer sequence (of another
+/// rule) starting with the same glyphs, that longer ligature would be formed
+/// whenever the text happens to continue that way; a shorter one would be
+/// formed in place of this rule's. Such sequences go in separate lookups.
+fn shares_prefix(sub: &LigatureSubBuilder, target: &[GlyphId16]) -> bool {
+    let Some((first, rest)) = target.split_first() else {
+        return false;
+    };
+    sub.iter()
+        .filter(|(gid, _)| *gid == first)
+        .flat_map(|(_, ligs)| ligs.iter())
+        .any(|(seq, _)| seq.len() != rest.len() && (seq.starts_with(rest) || rest.starts_with(seq)))
 }
 
 #[derive(Clone, Debug, Default)]
